@@ -120,6 +120,18 @@ def run_patch(patch, repo, pid):
         shutil.rmtree(tmp, ignore_errors=True)
 
 
+def _anchor_files(pid):
+    import json
+    try:
+        for line in open(os.path.join(os.path.dirname(HERE), 'properties.jsonl')):
+            p = json.loads(line)
+            if p.get('id') == pid:
+                return list(p.get('anchors', {}).get('files', []))
+    except OSError:
+        pass
+    return []
+
+
 def run_corpus(pid, repo, quiet=False):
     """thorough tier: the stored seeded changes of this property must be reported by its rules, the
     stored behaviour-preserving refactors must not be (results are evidence about the checker,
@@ -128,10 +140,20 @@ def run_corpus(pid, repo, quiet=False):
     seeded = sorted(d for d in os.listdir(base) if d.startswith(pid + '-') and
                     os.path.exists(os.path.join(base, d, 'patch.diff')))
     refs = sorted(f for f in os.listdir(os.path.join(base, 'refactors')) if f.endswith('.diff'))
+    n_all_refs = len(refs)
+    if not ALL_PIDS:
+        # a single property replays the refactors that touch the files it is anchored in (the `all` run replays every one
+        # once for all properties)
+        files = _anchor_files(pid)
+        if files:
+            def touches(f):
+                txt = open(os.path.join(base, 'refactors', f), errors='replace').read()
+                return any(('+++ b/' + af) in txt for af in files)
+            refs = [f for f in refs if touches(f)]
     jobs = [('seeded', d, os.path.join(base, d, 'patch.diff')) for d in seeded] + \
            [('refactor', f[:-5], os.path.join(base, 'refactors', f)) for f in refs]
     res = {}
-    with concurrent.futures.ThreadPoolExecutor(max_workers=8) as ex:
+    with concurrent.futures.ThreadPoolExecutor(max_workers=12) as ex:
         for (kind, name, _p), r in zip(jobs, ex.map(lambda j: run_patch(j[2], repo, pid), jobs)):
             res[(kind, name)] = r
     sd = {n: r for (k, n), r in res.items() if k == 'seeded'}
@@ -140,7 +162,7 @@ def run_corpus(pid, repo, quiet=False):
         'seeded_changes': {'total': len(sd), 'reported': sorted(n for n, r in sd.items() if r['status'] == 'fired'),
                            'not_reported': sorted(n for n, r in sd.items() if r['status'] == 'silent'),
                            'skipped': sorted(n for n, r in sd.items() if r['status'] == 'skipped')},
-        'neutral_refactors': {'total': len(rf), 'silent': sum(1 for r in rf.values() if r['status'] == 'silent'),
+        'neutral_refactors': {'total': len(rf), 'in_corpus': n_all_refs, 'silent': sum(1 for r in rf.values() if r['status'] == 'silent'),
                               'alarmed': {n: r.get('keys') for n, r in rf.items() if r['status'] == 'fired'},
                               'skipped': sorted(n for n, r in rf.items() if r['status'] == 'skipped')},
     }
